@@ -512,6 +512,12 @@ ADDENDA4 = {
            "middle of the line list shifts or rebuilds every field of the index.",
     "C13": " Round 8: equality (and so set membership) of Location / Feature / Annotation / AnnotatedSequence covers everything the constructor "
            "stores; enum members pairwise distinct.",
+    "C09": " Round 4 of the argued Cython edits: neighbour cells of the gapped extension are read exactly where they exist; the uint8 kernel needs "
+           "both code arrays uint8; gap-table entries that descend from the sentinel need a lower clamp (fails today: known finding, int32 "
+           "wrap-around of the affine banded alignment).",
+    "C10": " Round 4: a table built with alphabet= is a table over that alphabet.",
+    "C14": " Round 4: one query position gets the same kind of result as several (mask or indices).",
+    "C19": " Round 4: the queries of a tree (as_graph, get_distance, ..) leave its node lists as they are.",
     "C15": " Round 7: the order of principal components is realised by the rotation, not by permuting columns afterwards.",
     "C17": " Round 7: residue definition shared with C04; sub-arrays keep an empty bond list.",
     "C18": " Round 8: the numeric components of an SD metadata key are normalised independently.",
